@@ -879,26 +879,34 @@ func (d *stat) settle() {
 	stable := 0
 	rounds := 0
 	for rounds = 1; rounds <= 40; rounds++ {
+		// every controller runs once per round, in PRNG order (a fixed order can resonate with the controllers'
+		// own hand-offs and starve one of them for ever, which no real deployment does); informers in between
 		d.fullSync()
+		var todo []func()
 		for _, p := range d.pools {
-			d.stepHash(p)
-			d.stepProv(p)
-			d.stepDeprov(p)
+			p := p
+			todo = append(todo, func() { d.stepHash(p) }, func() { d.stepProv(p) }, func() { d.stepDeprov(p) })
 		}
-		for _, n := range e.ClaimNames() {
-			d.guard("lifecycle("+n+")", func() { d.advanceFully(n) })
-			d.stepNCDisruption(n)
+		todo = append(todo, func() {
+			for _, n := range e.ClaimNames() {
+				d.guard("lifecycle("+n+")", func() { d.advanceFully(n) })
+				d.stepNCDisruption(n)
+			}
+		}, d.stepDisrupt, d.stepQueue)
+		d.rng.Shuffle(len(todo), func(i, j int) { todo[i], todo[j] = todo[j], todo[i] })
+		for _, f := range todo {
+			f()
+			d.fullSync()
 		}
-		d.fullSync()
-		d.stepDisrupt()
-		d.stepQueue()
-		d.fullSync()
 		e.Clock.Step(15 * time.Second)
 		// state.nodeclaimgc runs 15s after every NodeClaim create
 		for _, n := range d.w.createdNames() {
 			d.guard("state.nodeclaimgc", func() {
 				_, _ = d.gc.Reconcile(e.Ctx, reconcile.Request{NamespacedName: types.NamespacedName{Name: n}})
 			})
+		}
+		if os.Getenv("VERIF_C03_TRACE") != "" {
+			fmt.Printf("SETTLE %d: %v\n", rounds, d.snapshot())
 		}
 		d.countCheck(fmt.Sprintf("after settling round %d", rounds), "")
 		ok := true
@@ -1061,7 +1069,7 @@ func runStatic(r *mon.Report, tier string, idx, ord int, rng *rand.Rand) {
 			limit = []int64{-1, replicas + 1, replicas + 2}[rng.Intn(3)]
 		case "drift-while-peer-finalises":
 			replicas = int64(2 + rng.Intn(3))
-			limit = replicas + int64(1+rng.Intn(2))
+			limit = replicas + []int64{1, 1, 2}[rng.Intn(3)]
 			budget = "100%"
 		case "drift-start-fails-then-scale-up":
 			replicas = int64(1 + rng.Intn(3))
@@ -1158,7 +1166,8 @@ func runStatic(r *mon.Report, tier string, idx, ord int, rng *rand.Rand) {
 	if nontrivial {
 		r.Sig("static|%s|%s|hook=%d|pools=%d", shape, strings.Join(sigs, ","), d.hookPct, len(d.pools))
 	}
-	if r.WantSample() && nontrivial && ord%7 == 2 {
+	if wantSample(r, "static") && nontrivial && shape == "random" {
+		sampled["static"] = true
 		r.Sample(map[string]any{"case": idx, "kind": "static", "shape": shape, "pools": poolDesc, "final": d.snapshot(), "trace": d.traceCopy()})
 	}
 }
